@@ -27,7 +27,8 @@ func (pass *DisjunctionInferMapping) Process(schemas []*ast.Schema) ([]*ast.Sche
 func (pass *DisjunctionInferMapping) processDisjunction(_ *Visitor, schema *ast.Schema, def ast.Type) (ast.Type, error) {
 	var err error
 
-	if !def.Disjunction.Branches.HasOnlyRefs() {
+	// nothing to infer from a union without branches
+	if len(def.Disjunction.Branches) == 0 || !def.Disjunction.Branches.HasOnlyRefs() {
 		return def, nil
 	}
 
